@@ -2107,3 +2107,85 @@ mut("quiet-additive-status-flag", ["C13"], [("banman/store.go", '''	var banStatu
 }''', '''	_ = expired
 	return banStatus, nil
 }''')], [])
+
+# ---- rules added after seed batch 10 ----
+mut("c04-list-walk-after-remove", ["C04"], [(BM, '''	var enext *list.Element
+	for e := peers.Front(); e != nil; e = enext {
+		enext = e.Next()
+''', '''	for e := peers.Front(); e != nil; e = e.Next() {
+''')], ["C04.O8"])
+mut("c06-handler-remembers-rejection", ["C06"], [(Q, '''	var foundBlock *btcutil.Block
+
+	// handleResp will be called for each message received from a peer. It''', '''	var foundBlock *btcutil.Block
+	var rejected bool
+
+	// handleResp will be called for each message received from a peer. It'''), (Q, '''		if response.BlockHash() != blockHash {
+			return noProgress
+		}
+		block := btcutil.NewBlock(response)''', '''		if response.BlockHash() != blockHash {
+			return noProgress
+		}
+		if rejected {
+			return noProgress
+		}
+		block := btcutil.NewBlock(response)'''), (Q, '''			log.Warnf("Invalid block for %s received from %s: %v",
+				blockHash, peer, err)
+''', '''			log.Warnf("Invalid block for %s received from %s: %v",
+				blockHash, peer, err)
+			rejected = true
+''')], ["C06.O4"])
+mut("c07-locator-stops-short", ["C07", "C04"], [("headerfs/store.go", '''	for height > 0 && len(locator) < wire.MaxBlockLocatorsPerMsg {''', '''	for height > decrement && len(locator) < wire.MaxBlockLocatorsPerMsg {''')], ["C07.V4", "C04.O7"])
+mut("c08-reconcile-reads-at-tip-height", ["C08"], [("headerfs/store.go", '''	latestFileHeader, err := bhs.readHeader(fileHeight)''', '''	latestFileHeader, err := bhs.readHeader(tipHeight)''')], ["C08.O4"])
+mut("c12-retry-cap-by-subtraction", ["C12"], [("query/workmanager.go", '''				if !batch.noRetryMax &&
+					result.job.tries >= batch.maxRetries {
+''', '''				if !batch.noRetryMax &&
+					batch.maxRetries-result.job.tries == 0 {
+''')], ["C12.G3"])
+mut("c14-region-end-from-metadata", ["C14"], [("chainimport/headers_import.go", '''	sourceEndIdx := targetHeightToImportSourceIndex(
+		endHeight, metadata.startHeight,
+	)
+
+	blockIter := h.blockHeadersImportSource.Iterator(''', '''	sourceEndIdx := targetHeightToImportSourceIndex(
+		metadata.endHeight, metadata.startHeight,
+	)
+
+	blockIter := h.blockHeadersImportSource.Iterator(''')], ["C14.V3"])
+mut("c15-any-getdata-counts-as-reply", ["C15"], [(Q, '''			case *wire.MsgGetData:
+				for _, vec := range response.InvList {''', '''			case *wire.MsgGetData:
+				replies[sp.ID()] = struct{}{}
+				for _, vec := range response.InvList {''')], ["C15.G2"])
+mut("c15-any-reject-counts", ["C15"], [(Q, '''				if response.Hash != txHash {
+					return
+				}
+
+				broadcastErr := pushtx.ParseBroadcastError(''', '''				broadcastErr := pushtx.ParseBroadcastError(''')], ["C15.G2"])
+mut("c17-closed-subscription-skipped", ["C17"], [(RS, '''		case ntfn, ok := <-blockSubscription.Notifications:
+			if !ok {
+				return errors.New("rescan block subscription " +
+					"was canceled while waiting to catch " +
+					"up")
+			}
+			cNtfn, ok := ntfn.(*blockntfns.Connected)''', '''		case ntfn := <-blockSubscription.Notifications:
+			cNtfn, ok := ntfn.(*blockntfns.Connected)''')], ["C17.O5"])
+mut("c19-mirror-follows-block-headers", ["C19", "C11"], [(BM, '''		bs, err = b.cfg.BlockHeaders.RollbackLastBlock()
+		if err != nil {
+			return err
+		}
+''', '''		bs, err = b.cfg.BlockHeaders.RollbackLastBlock()
+		if err != nil {
+			return err
+		}
+		b.newFilterHeadersMtx.Lock()
+		b.filterHeaderTip = uint32(bs.Height)
+		b.filterHeaderTipHash = bs.Hash
+		b.newFilterHeadersMtx.Unlock()
+''')], ["C19.O3"])
+mut("c11-registration-answer-unbuffered", ["C11", "C17"], [("blockntfns/manager.go", "		errChan:    make(chan error, 1),", "		errChan:    make(chan error),")], ["C11.V3", "C17.B1"])
+_OLD_POOL = '''	headerBuf := headerBufPool.Get().(*bytes.Buffer)
+	headerBuf.Reset()
+	defer headerBufPool.Put(headerBuf)
+'''
+mut("c18-pooled-buffer-put-before-use", ["C18"], [("headerfs/store.go", _OLD_POOL, '''	headerBuf := headerBufPool.Get().(*bytes.Buffer)
+	headerBuf.Reset()
+	headerBufPool.Put(headerBuf)
+''', "all")], ["C18.R7"])
